@@ -195,7 +195,7 @@ def run(ctx):
                    "share, verifying share = G * signing share, the key package's group key is a copy of the public "
                    "package's, the public package is derived from all round-one commitments plus the own one (every "
                    "identifier, every commitment, every coefficient index; short commitments refused), threshold from the "
-                   "commitment length; Taproot post-processing tweaks both packages with None.")
+                   "commitment length; Taproot post-processing tweaks both packages with None. Kernels: sum_commitments adds, for every index, the i-th coefficient of every commitment to a total that starts as [identity; len(first)] (in-place two-loop form or try_fold/map/collect form); evaluate_vss step (x*pow, sum+phi_k*pow) from (1, identity).")
     ctx.undecided = ("most of the property: equality of packages across participants, shares lying on the summed "
                      "polynomial, signing afterwards (agreement between runs is not a structural fact).")
     ctx.floor = 13 if ctx.core_only else 14
